@@ -97,18 +97,7 @@ func (f *STFS) Create(name string) (afero.File, error) {
 
 	name = cleanName(name)
 
-	if _, err := inventory.Stat(
-		f.metadata,
-
-		filepath.Dir(name),
-		false,
-
-		f.onHeader,
-	); err != nil {
-		if err == sql.ErrNoRows {
-			return nil, os.ErrNotExist
-		}
-
+	if err := f.statParentDirectory(name); err != nil {
 		return nil, err
 	}
 
@@ -291,18 +280,7 @@ func (f *STFS) Mkdir(name string, perm os.FileMode) error {
 	f.ioLock.Lock()
 	defer f.ioLock.Unlock()
 
-	if _, err := inventory.Stat(
-		f.metadata,
-
-		filepath.Dir(name),
-		false,
-
-		f.onHeader,
-	); err != nil {
-		if err == sql.ErrNoRows {
-			return os.ErrNotExist
-		}
-
+	if err := f.statParentDirectory(name); err != nil {
 		return err
 	}
 
@@ -476,18 +454,7 @@ func (f *STFS) OpenFile(name string, flag int, perm os.FileMode) (afero.File, er
 
 			createFile := func() error {
 				if !f.readOnly && flag&os.O_CREATE != 0 && flag&os.O_EXCL == 0 {
-					if _, err := inventory.Stat(
-						f.metadata,
-
-						filepath.Dir(name),
-						false,
-
-						f.onHeader,
-					); err != nil {
-						if err == sql.ErrNoRows {
-							return os.ErrNotExist
-						}
-
+					if err := f.statParentDirectory(name); err != nil {
 						return err
 					}
 
@@ -771,18 +738,7 @@ func (f *STFS) Rename(oldname, newname string) error {
 		}
 	}
 
-	if _, err := inventory.Stat(
-		f.metadata,
-
-		filepath.Dir(newname),
-		false,
-
-		f.onHeader,
-	); err != nil {
-		if err == sql.ErrNoRows {
-			return os.ErrNotExist
-		}
-
+	if err := f.statParentDirectory(newname); err != nil {
 		return err
 	}
 
@@ -1183,18 +1139,7 @@ func (f *STFS) SymlinkIfPossible(oldname, newname string) error {
 	f.ioLock.Lock()
 	defer f.ioLock.Unlock()
 
-	if _, err := inventory.Stat(
-		f.metadata,
-
-		filepath.Dir(newname),
-		false,
-
-		f.onHeader,
-	); err != nil {
-		if err == sql.ErrNoRows {
-			return os.ErrNotExist
-		}
-
+	if err := f.statParentDirectory(newname); err != nil {
 		return err
 	}
 
@@ -1238,6 +1183,31 @@ func (f *STFS) ReadlinkIfPossible(name string) (string, error) {
 	}
 
 	return linkname, nil
+}
+
+// statParentDirectory checks that the parent of `name` exists and is a directory
+func (f *STFS) statParentDirectory(name string) error {
+	parent, err := inventory.Stat(
+		f.metadata,
+
+		filepath.Dir(name),
+		false,
+
+		f.onHeader,
+	)
+	if err != nil {
+		if err == sql.ErrNoRows {
+			return os.ErrNotExist
+		}
+
+		return err
+	}
+
+	if parent.Typeflag != tar.TypeDir {
+		return config.ErrIsFile
+	}
+
+	return nil
 }
 
 func checkName(name string) bool {
